@@ -44,6 +44,9 @@ func runC18(c *core.Ctx) {
 		if nt == nil || seenT[nt] {
 			continue
 		}
+		if pp := nt.Obj().Pkg().Path(); strings.Contains(pp, "/mock") || strings.Contains(pp, "testscommon") || strings.Contains(pp, "integrationTests") {
+			continue // test doubles are not reachable from the interceptor factories
+		}
 		// must also have CheckValidity
 		hasCV := false
 		ms := c.P.SSA.MethodSets.MethodSet(types.NewPointer(nt))
